@@ -299,3 +299,45 @@ prop(dict(
     assumptions=RTP_ASSUME + ["legacy profiles avoid 0x1001-0x100F (RFC 8285 appbits, read as legacy by the library)",
                               "RawExtension.Get(0) may return the block with or without its 4-byte prefix (the statement does not fix the boundary)"],
 ))
+
+
+# ---------------------------------------------------------------- C05
+C05_T = {"BigIds": "{0, 1, 2, 14, 15, 16, 255}", "BigLens": "{0, 1, 3, 4, 16, 17, 255, 256, 300}", "MidIds": "{0, 1, 2, 15, 16}",
+         "MidLens": "{0, 1, 16, 17, 256}", "D1": "2", "D2": "3", "D3": "4"}
+
+
+def rand_c05(seed, tier, cases=None):
+    rng = random.Random(seed * 7919 + 5)
+    starts = ["fresh", "onebyte", "twobyte", "legacy", "um_onebyte", "um_twobyte", "um_legacy"]
+    out = []
+    for _ in range(1500 if tier == "quick" else 40000):
+        n = rng.randint(1, 8)
+        ops = []
+        for j in range(n):
+            ident = rng.choice([0, 1, 2, 3, 5, 14, 15, 16, 200, 255])
+            if rng.random() < 0.3:
+                ops.append(dict(op="del", id=ident, len=0, salt=j + 1))
+            else:
+                ops.append(dict(op="set", id=ident, len=rng.choice([0, 1, 2, 3, 4, 8, 15, 16, 17, 32, 100, 255, 256, 300]), salt=j + 1))
+        st = rng.choice(starts)
+        out.append(dict(fam="C05", start=st, ops=ops, depth=n, **{"class": st + "_rand"}))
+    return out
+
+
+prop(dict(
+    id="C05", fam="C05",
+    mc=[("RtpHeaderExtMC.tla", "RtpHeaderExtMC.cfg", {"thorough": {"Depth": "3", "Ids": "{0, 1, 2, 14, 15, 16, 255}", "Lens": "{0, 1, 4, 16, 17, 255}"}})],
+    gen=[("RtpExtGen.tla", "RtpExtGen.cfg", {"thorough": C05_T})],
+    rand=rand_c05,
+    trace=("RtpExtTrace.tla", "RtpExtTrace.cfg"),
+    shards={"quick": 6, "thorough": 14},
+    workers=16,
+    class_of=lambda c: c["start"] + "_d" + str(min(c.get("depth", 0), 4)),
+    nontrivial=lambda c: len(c["ops"]) >= 1,
+    mandatory=["fresh_d1", "onebyte_d2", "twobyte_d2", "legacy_d2", "um_onebyte_d3", "um_twobyte_d3", "um_legacy_d3", "fresh_d3"],
+    rule="TLC enumerates every Set/Del history: depth <= D1 over the big alphabet (ids {0,1,2,14,15,16,255} x lengths {0,1,3,4,16,17,255,256,300}), depth D2 over "
+         "the mid alphabet, depth D3 over nine selected operations, from seven start states (fresh, preset one-byte/two-byte/legacy, three from Unmarshal); after "
+         "every call the harness records GetExtensionIDs/GetExtension over ten probe ids and a Marshal+Unmarshal round trip; seeded random histories of length 1-8 are added; "
+         "distinct = distinct (start, op list)",
+    assumptions=COMMON_ASSUME + ["profile choice on a fresh header is left to the implementation; wire survival is judged on value content per id (nil and empty are the same value)"],
+))
